@@ -5,6 +5,8 @@
 package index
 
 import (
+	"io"
+
 	"github.com/marekgalovic/anndb/index/space"
 	"github.com/marekgalovic/anndb/math"
 	"github.com/marekgalovic/anndb/utils"
@@ -13,6 +15,7 @@ import (
 
 var _ uuid.UUID
 var _ space.Space
+var _ io.Reader
 var _ math.Vector
 var _ utils.PriorityQueue
 
@@ -27,6 +30,9 @@ var _ utils.PriorityQueue
 // shards exist, are pairwise different maps, and every stored vertex sits in the shard of its own id under its own id
 //@ spec wfShards(ix *Hnsw) bool = (forall s int :: 0 <= s && s < 16 ==> ix.vertices[s] != nil) && (forall s int, t int :: 0 <= s && s < t && t < 16 ==> ix.vertices[s] != ix.vertices[t])
 //@ spec wfStored(ix *Hnsw) bool = forall s int, id uuid.UUID :: 0 <= s && s < 16 && has(ix.vertices[s], id) ==> s == shardIdx(id) && ix.vertices[s][id] != nil && ix.vertices[s][id].id == id && ix.vertices[s][id].deleted == 0 && ix.vertices[s][id].level >= 0 && ix.vertices[s][id].level < 2147483648
+
+// shape of the link structure Save walks: one edge map per level 0..level, no nil neighbour, a typed entry point
+//@ spec wfGraph(ix *Hnsw) bool = (forall v *hnswVertex :: v.level >= 0 ==> len(v.edges) == v.level + 1) && (forall m hnswEdgeSet :: !has(m, nil))
 
 // bytes accounted for one item: 16 (id) + 4 per vector component + metadata key/value bytes
 //@ ufunc metaBytes(Metadata) uint64
@@ -193,3 +199,146 @@ var _ utils.PriorityQueue
 //@ props C01 C09
 //@ safety C01 C12
 //@ modifies cells[utils.minPriorityQueue], cells[utils.maxPriorityQueue], mem[*utils.PriorityQueueItem]
+
+// ---------------------------------------------------------------------------------------------
+// C08: snapshots. Proved here: fixed-size tokens are read completely whatever the reader does (Load never calls Read on
+// the stream itself), every shard map is replaced (nothing of the old state can survive a Load), the data byte counter
+// is rebuilt from the loaded items only, and the narrowing conversions that write lengths/counts in Save are lossless
+// under the stated size bounds of the state. Conformance of the two functions to one stream grammar is covered by a
+// BOUNDED round-trip stand-in (see /verif/bounded), not by proof.
+
+//@ func encoding/binary.Read
+//@ props C08 C04
+//@ assume
+//@ modifies fields(data)
+
+//@ func encoding/binary.Write
+//@ props C08
+//@ assume
+//@ modifies nothing
+
+//@ func io.ReadFull
+//@ props C08 C04
+//@ assume
+//@ ensures [full] isnil(err) ==> n == len(buf)
+//@ modifies mem(buf)
+
+//@ func iface:io.Reader.Read
+//@ props C08
+//@ assume
+//@ ensures [short-reads-allowed] 0 <= ret0 && ret0 <= len(arg0)
+//@ modifies mem(arg0)
+
+//@ func iface:io.Writer.Write
+//@ props C08
+//@ assume
+//@ modifies nothing
+
+//@ func io.WriteString
+//@ props C08
+//@ assume
+//@ modifies nothing
+
+//@ func (*index.hnswConfig).load
+//@ props C08
+//@ assume
+//@ modifies fields(this)
+
+//@ func (*index.hnswConfig).save
+//@ props C08
+//@ assume
+//@ modifies nothing
+
+//@ func index.spaceIdxToSpace
+//@ props C08
+//@ assume
+//@ ensures [space] isnil(ret1) ==> !isnil(ret0)
+//@ modifies nothing
+
+//@ func (math.Vector).Load
+//@ props C08
+//@ assume
+//@ modifies mem(v)
+
+//@ func (math.Vector).Save
+//@ props C08
+//@ assume
+//@ modifies nothing
+
+// metadata records: key length in one byte, value length in two bytes, entry count in two bytes
+//@ spec metaFits(m Metadata) bool = len(m) <= 65535 && forall k string :: has(m, k) ==> len(k) <= 255 && len(m[k]) <= 65535
+
+//@ func (index.Metadata).saveKV
+//@ props C08
+//@ safety C12
+//@ trust check lossless
+//@ requires [fits] len(k) <= 255 && len(v) <= 65535
+//@ modifies nothing
+
+//@ func (index.Metadata).save
+//@ props C08
+//@ safety C12
+//@ trust check lossless
+//@ requires [fits] metaFits(this)
+//@ modifies nothing
+
+//@ func (*index.Metadata).loadKV
+//@ props C08
+//@ safety C12
+//@ at call Reader.Read
+//@ requires [C08 full-read] false
+//@ end
+//@ requires [reader] !isnil(r)
+//@ modifies nothing
+
+//@ func (index.Metadata).load
+//@ props C08
+//@ safety C12
+//@ at call Reader.Read
+//@ requires [C08 full-read] false
+//@ end
+//@ requires [reader] !isnil(r) && this != nil
+//@ modifies map(this)
+
+//@ spec vertexFits(v *hnswVertex) bool = v.level < 2147483648 && metaFits(v.metadata)
+
+//@ func (*index.Hnsw).Save
+//@ props C08
+//@ trust check lossless
+//@ requires [graph] wfGraph(this) && !isnil(w)
+//@ requires [shards] wfShards(this) && wfStored(this) && this.config != nil
+//@ requires [sizes] this.size <= 4294967295 && forall s int :: 0 <= s && s < 16 ==> len(this.vertices[s]) <= 4294967295
+//@ requires [items-fit] forall s int, id uuid.UUID :: 0 <= s && s < 16 && has(this.vertices[s], id) ==> vertexFits(this.vertices[s][id])
+//@ requires [links-fit] forall m hnswEdgeSet :: len(m) <= 4294967295
+//@ modifies nothing
+//@ loop 5
+//@ invariant [level] l <= vertex.level && vertex != nil && vertex.level >= 0
+//@ loop 6
+//@ invariant [count] 0 <= edgesCount && edgesCount <= $count
+
+//@ func (*index.Hnsw).Load
+//@ props C08 C04
+//@ safety UNCLAIMED
+//@ ghost gbytes uint64 = 0
+//@ at call Reader.Read
+//@ requires [C08 full-read] false
+//@ end
+//@ at call hnswVertex).bytesSize
+//@ set gbytes = (gbytes + $ret0) % 18446744073709551616
+//@ end
+//@ requires [wf] wfShards(this) && this.config != nil && !isnil(r)
+//@ ensures [C08 fresh-shards] isnil(ret) ==> forall s int :: 0 <= s && s < 16 ==> this.vertices[s] != nil && fresh(this.vertices[s])
+//@ ensures [C08 counters-from-stream] isnil(ret) ==> this.bytesSize == gbytes
+//@ modifies this.len, this.bytesSize, this.vertices, this.entrypoint, this.size, this.space, fields(this.config), maps[hnswEdgeSet], mem[hnswEdgeSet]
+//@ loop 1
+//@ invariant [fresh-prefix] forall s int :: 0 <= s && s <= rangeindex ==> this.vertices[s] != nil && fresh(this.vertices[s])
+//@ invariant [counter] this.bytesSize == 0 && gbytes == 0 && this.config != nil
+//@ loop 2
+//@ invariant [fresh-prefix] forall s int :: 0 <= s && s <= rangeindex ==> this.vertices[s] != nil && fresh(this.vertices[s]) && allocated(this.vertices[s])
+//@ invariant [distinct] forall s int, t int :: 0 <= s && s < t && t <= rangeindex ==> this.vertices[s] != this.vertices[t]
+//@ invariant [counter] this.bytesSize == gbytes && this.config != nil
+//@ loop 3
+//@ invariant [fresh-prefix] forall s int :: 0 <= s && s <= rangeindex + 1 ==> this.vertices[s] != nil && fresh(this.vertices[s]) && allocated(this.vertices[s])
+//@ invariant [distinct] forall s int, t int :: 0 <= s && s < t && t <= rangeindex + 1 ==> this.vertices[s] != this.vertices[t]
+//@ invariant [counter] this.bytesSize == gbytes && this.config != nil
+//@ invariant [shard] verticesShard != nil && verticesShard == this.vertices[rangeindex + 1] && fresh(verticesShard)
